@@ -402,6 +402,32 @@ theorem success_delivers_all (n : Nat) (full : List Cluster.Op) (masks : Nat →
   refine ⟨i, by simpa using hi, ?_⟩
   simp [e]
 
+/-- **A wrapped edge hands its component only pairs that were captured by a call of that edge.** For every op
+list and every assignment `cap` of wrapped calls to retryer calls: each invocation of an inner function
+carries the (edge, duty, set) of the very call whose attempt it is — never the set of one call under the duty
+of another, never something nobody passed in; and that call was indeed made (its attempt count is ≥ 1). -/
+theorem wrapped_edge_delivers_only_captured_pairs (cap : Nat → Option WCall) (os : List Op) :
+    ∀ w ∈ invocations cap (trace init os),
+      ∃ id i x, Ev.start id i x ∈ trace init os ∧ cap id = some w := by
+  intro w hw
+  unfold invocations at hw
+  obtain ⟨e, he, hew⟩ := List.mem_filterMap.mp hw
+  cases e with
+  | start id i x => exact ⟨id, i, x, he, hew⟩
+  | backoff _ _ => cases hew
+  | returned _ => cases hew
+  | dropped _ => cases hew
+  | sdReturned _ => cases hew
+
+/-- The number of invocations a wrapped call causes is its number of attempts, all with its own pair: the
+delivery list of the refinement theorem with `full = [the captured pair]` (cf. `attemptOps_subset`). -/
+theorem wrapped_call_attempts_same_pair (w : Cluster.Op) (n : Nat) (masks : Nat → List Bool) :
+    ∀ o ∈ edgeOps n [w] masks, o = w := by
+  intro o ho
+  unfold edgeOps at ho
+  obtain ⟨k, _, hk⟩ := List.mem_flatMap.mp ho
+  simpa using attemptOps_subset [w] (masks k) o hk
+
 /-- The wiring the model assumes (compared with core/retry.go and core/interfaces.go by the stream's `cfg`
 op): exactly five inputs are asynchronous and retried, six are inline. -/
 theorem wrapped_edges_table :
@@ -449,5 +475,12 @@ example : (List.range 11).map nominalDelayMs = [250, 400, 640, 1024, 1638, 2621,
 example :
     edgeOps 3 [Cluster.Op.deliver 0 2 107, .deliver 1 2 107] (fun k => [[true, false], [false, true], [true, true]].getD k [])
     = [.deliver 0 2 107, .deliver 1 2 107, .deliver 0 2 107, .deliver 1 2 107] := by rfl
+
+-- D1 fails temporarily and waits, D2 on the same edge succeeds, D1's timer fires: the edge's component sees
+-- (D1, S1), (D2, S2), (D1, S1) — D1's set again under D1, nothing else
+example :
+    invocations (fun id => if id = 1 then some ⟨3, 5, 1⟩ else if id = 2 then some ⟨3, 6, 2⟩ else none)
+      (trace init [(WCall.mk 3 5 1).op 1, .ret 1 (.err true false "net"), (WCall.mk 3 6 2).op 2, .ret 2 .ok, .fire 1])
+    = [⟨3, 5, 1⟩, ⟨3, 6, 2⟩, ⟨3, 5, 1⟩] := by decide
 
 end CharonV.Retry
